@@ -145,7 +145,7 @@ Theorem C19_gqa_check_head_size_refuted : exists i h hkv il dh,
   gqa_check_rewrite true false i = Some (h, hkv, il) /\ dim_at (gi_query4 i) 3 = Some dh /\ gqa_kernel_ok h hkv dh = false.
 Proof. exact gqa_check_head_size_refuted. Qed.
 Print Assumptions C19_gqa_check_head_size_refuted.
-(* ... the repair (head16 = true, proposed_fixes/ready/C19_01; the harness probes the variant) establishes it *)
+(* ... the repair (head16 = true, fix 4396b26; the harness probes the variant) establishes it *)
 Theorem C19_gqa_check_head16_sufficient : forall st i h hkv il, gqa_check_rewrite st true i = Some (h, hkv, il) ->
   exists dh, dim_at (gi_query4 i) 3 = Some dh /\ (0 <= dh)%Z /\ (dh mod 16 = 0)%Z
     /\ ((0 < hkv)%Z -> (h mod hkv = 0)%Z -> gqa_kernel_ok h hkv dh = true).
@@ -200,7 +200,7 @@ Theorem C19_mha_mask_batch_check_refuted : exists i B H S T mask ub h,
   /\ mha_mask_ok B H S T (mha_mask_after ub S mask) = false /\ nth 3 mask 0%Z = T.
 Proof. exact mha_mask_batch_check_refuted. Qed.
 Print Assumptions C19_mha_mask_batch_check_refuted.
-(* the repair (strict_mask = true, proposed_fixes/ready/C19_03; the harness probes the variant).  It only adds refusals ... *)
+(* the repair (strict_mask = true, fix 20eab3b; the harness probes the variant).  It only adds refusals ... *)
 Theorem C19_mha_strict_refines : forall i r, mha_check_rewrite true i = Some r -> mha_check_rewrite false i = Some r.
 Proof. exact mha_strict_refines. Qed.
 Print Assumptions C19_mha_strict_refines.
@@ -260,7 +260,7 @@ Print Assumptions C19_gn_check_sound.
 Theorem C19_gn_check_affine_refuted : exists i g, gn_check false i = Some g /\ gn_affine_ok i = false /\ gn_check true i = None.
 Proof. exact gn_check_affine_refuted. Qed.
 Print Assumptions C19_gn_check_affine_refuted.
-(* the repair (affine_guard = true, proposed_fixes/ready/C19_02; the harness probes the variant): gamma / beta have C elements *)
+(* the repair (affine_guard = true, fix b960a70; the harness probes the variant): gamma / beta have C elements *)
 Theorem C19_gn_check_affine_sufficient : forall i g, gn_check true i = Some g -> gn_affine_ok i = true.
 Proof. exact gn_check_affine_sufficient. Qed.
 Print Assumptions C19_gn_check_affine_sufficient.
